@@ -16,7 +16,7 @@ def hooks : Hooks where
   flagLoad := fun s st => if sameIndex st s.spec then "" else "\t#F:" ++ findingId s
 
 def cfgOfArgs (kv : List (String × String)) : Cfg :=
-  { r := ⟨boolArg kv "shortHeaderIsEOF", boolArg kv "tornDataIsEOF", false⟩,
+  { r := ⟨boolArg kv "shortHeaderIsEOF", boolArg kv "tornDataIsEOF", false, boolArg kv "zeroTailIsEOF"⟩,
     syncFsyncs := true, closeFsyncs := boolArg kv "closeFsyncs", truncatesTornTail := boolArg kv "truncatesTornTail",
     loadCleansTemp := boolArg kv "loadCleansTemp", rmTempLocked := boolArg kv "rmTempLocked",
     rmTempFromIndex := boolArg kv "rmTempFromIndex", rmTempCompactor := boolArg kv "rmTempCompactor" }
